@@ -429,7 +429,7 @@ def drv_best(tier, npairs):
 
 @_silenced
 def drv_resid(tier, npairs):
-    d_ = _det(Driver('C11', 'residuals', bound='%d random pairs 1-3-D, folded data in 1/4 of them, independent masks, data zeros, mask argument in '
+    d_ = _det(Driver('C11', 'residuals', bound='%d random pairs 1-3-D, folded data in 1/4 of them, independent masks, data zeros, bins empty in both in 1/5 of them, mask argument in '
                 '{None, 0, 1e-2, 0.5, 5}: linear (m-d)/sqrt(m) and Anscombe -1.5*((d^(2/3)-d^(-1/3)/9)-(m^(2/3)-m^(-1/3)/9))/m^(1/6) against '
                 'mpmath, rel tol 1e-12 of the term scale; masks = joint mask (plus d==0 for Anscombe) plus (m<=mask & d<=mask); sign>0 iff '
                 'model>data (linear)' % npairs))
@@ -449,6 +449,11 @@ def drv_resid(tier, npairs):
             mv = np.array([10 ** rng.uniform(-3, 1.5) for _ in range(mv.size)]).reshape(shape)
         mm, dm = _rand_mask(rng, np, shape), _rand_mask(rng, np, shape)
         folded = i % 4 == 3
+        if i % 5 == 1:           # bins that neither the model nor the data populate (residual 0/0: what mask=0 is documented to exclude)
+            for _ in range(2):
+                e = tuple(rng.randrange(k) for k in shape)
+                mv[e] = 0.0
+                dv[e] = 0.0
         if folded:
             for idx in np.ndindex(shape):
                 if 2 * sum(idx) > N:
@@ -476,6 +481,8 @@ def drv_resid(tier, npairs):
             for idx in np.ndindex(shape):
                 m, dd = float(m_eff[idx]), float(dv[idx])
                 cut = level is not None and m <= level and dd <= level
+                if level is None and m == 0:
+                    continue         # undefined residual and no mask level requested: nothing is promised
                 want_lmask = bool(joint[idx] or cut)
                 want_amask = bool(joint[idx] or dd == 0 or cut or (level is not None and dd == 0))
                 if bool(lmask[idx]) != want_lmask:
